@@ -171,7 +171,7 @@ func verifyFunc(L *Loaded, fn *ssa.Function, fc *FuncContract) (res *FuncResult)
 	res = &FuncResult{Fn: fn, Key: funcKey(fn), FC: fc}
 	curPC = nil
 	pcBounds = map[*PC]*boundsTab{}
-	ex := &Exec{L: L, top: fn, topFC: fc, maxPaths: 4000, maxInline: 6, inlined: map[string]bool{}, assumed: map[string]bool{}, usedCtr: map[string]bool{}}
+	ex := &Exec{L: L, top: fn, topFC: fc, maxPaths: 4000, maxInline: 6, inlined: map[string]bool{}, assumed: map[string]bool{}, usedCtr: map[string]bool{}, renamed: map[string]bool{}}
 	if fc != nil && fc.NoSafety {
 		ex.noSafety = true
 	}
